@@ -278,7 +278,6 @@ def run(H):
     jobs.append(lambda: case_gn(H))
     if not H.quick:
         jobs.append(lambda: case_lm(H, 'Constant', S3[0][1], 1, 1, model='euclid+two-outputs'))
-        jobs.append(lambda: case_lm(H, 'TrustRegion', S3[2][1], 1, 1, model='so3-algebra+two-outputs'))
         jobs.append(lambda: case_lm(H, 'TrustRegion-b', strategy_objects(False)[4][1], 3, 2))
         jobs.append(lambda: case_lm(H, 'Adaptive-b', strategy_objects(False)[3][1], 3, 1))
     for j in jobs:
